@@ -1,1 +1,276 @@
 import Hive.Proofs.C12aHeapOrd
+/-!
+# The C12 heap / priority-queue model: invariant and outputs (levels 3 and 4)
+
+* `C12aHeapBasic`: frame lemmas, `lessK` order facts;
+* `C12aHeapIdx`: `IdxInv` ("handle index = position"), preserved by every operation;
+* `C12aHeapPerm`: multiset facts (`List.Perm`) and idempotence of the `remove` closure;
+* `C12aHeapOrd`: `HeapOrd` through `up`/`down` (heaps with a hole), `root_min`;
+* this file: `Inv = IdxInv ∧ HeapOrd` over all histories, and what `Pop`, `Peek`, `PopAll`,
+  `PopUntil` return.
+-/
+namespace Hive.C12a.Heap
+
+/-- The queue invariant: index invariant and heap order. -/
+def Inv (s : St) : Prop := IdxInv s ∧ HeapOrd s
+
+instance (s : St) : Decidable (IdxInv s) := by unfold IdxInv; infer_instance
+instance (s : St) : Decidable (HeapOrd s) :=
+  decidable_of_iff (∀ i, i < s.arr.length → 0 < i → less s i ((i - 1) / 2) = false)
+    ⟨fun h i h0 hi => h i hi h0, fun h i hi h0 => h i h0 hi⟩
+instance (s : St) : Decidable (Inv s) := by unfold Inv; infer_instance
+
+theorem inv_init (d : Bool) : Inv (init d) := ⟨idxInv_init d, heapOrd_init d⟩
+
+/-! ## heap order through the queue operations -/
+
+/-- `Push` keeps the heap order. -/
+theorem heapOrd_push (s : St) (v : Nat) (p : Int) (hs : HeapOrd s) : HeapOrd (push s v p).1 := by
+  unfold push
+  apply heapOrd_heapPush
+  intro k hk0 hkn
+  exact hs k hk0 hkn
+
+/-- The `remove` closure keeps the invariant, for every handle (live, dead or never allocated). -/
+theorem inv_removeHandle (s : St) (h : Nat) (hs : Inv s) : Inv (removeHandle s h) := by
+  refine ⟨idxInv_removeHandle s h hs.1, ?_⟩
+  unfold removeHandle
+  split
+  · next hh => exact heapOrd_heapRemove s _ (hs.1.lookup hh).1 hs.2
+  · exact hs.2
+
+theorem heapOrd_pop (s : St) (hs : HeapOrd s) : HeapOrd (pop s).1 := by
+  unfold pop
+  split
+  · next hne => exact heapOrd_heapPop s hne hs
+  · exact hs
+
+theorem heapOrd_popUntilAux (p : Int) (fuel : Nat) (s : St) (acc : List Elem) (hs : HeapOrd s) :
+    HeapOrd (popUntilAux p fuel s acc).1 := by
+  induction fuel generalizing s acc with
+  | zero => exact hs
+  | succ n ih =>
+    unfold popUntilAux
+    split
+    · next hc => exact ih _ _ (heapOrd_heapPop s hc.1 hs)
+    · exact hs
+
+theorem heapOrd_popAllAux (fuel : Nat) (s : St) (acc : List Elem) (hs : HeapOrd s) :
+    HeapOrd (popAllAux fuel s acc).1 := by
+  induction fuel generalizing s acc with
+  | zero => exact hs
+  | succ n ih =>
+    unfold popAllAux
+    split
+    · next hc => exact ih _ _ (heapOrd_heapPop s hc hs)
+    · exact hs
+
+theorem inv_push (s : St) (v : Nat) (p : Int) (hs : Inv s) : Inv (push s v p).1 :=
+  ⟨idxInv_push s v p hs.1, heapOrd_push s v p hs.2⟩
+
+theorem inv_pop (s : St) (hs : Inv s) : Inv (pop s).1 :=
+  ⟨idxInv_pop s hs.1, heapOrd_pop s hs.2⟩
+
+theorem inv_popUntil (s : St) (p : Int) (hs : Inv s) : Inv (popUntil s p).1 :=
+  ⟨idxInv_popUntil s p hs.1, heapOrd_popUntilAux p _ s [] hs.2⟩
+
+theorem inv_popAll (s : St) (hs : Inv s) : Inv (popAll s).1 :=
+  ⟨idxInv_popAll s hs.1, heapOrd_popAllAux _ s [] hs.2⟩
+
+/-- Every request keeps the invariant. -/
+theorem inv_step (s : St) (op : Op) (hs : Inv s) : Inv (step s op).1 := by
+  cases op with
+  | push v p => exact inv_push s v p hs
+  | remove h => exact inv_removeHandle s h hs
+  | peek => exact hs
+  | pop => exact inv_pop s hs
+  | popUntil p => exact inv_popUntil s p hs
+  | popAll => exact inv_popAll s hs
+  | size => exact hs
+  | isEmpty => exact hs
+
+theorem inv_final_of (s : St) (ops : List Op) (hs : Inv s) : Inv (final s ops) := by
+  induction ops generalizing s with
+  | nil => exact hs
+  | cons op ops ih => exact ih _ (inv_step s op hs)
+
+/-- The invariant holds after every history of requests on a fresh queue. -/
+theorem inv_final (d : Bool) (ops : List Op) : Inv (final (init d) ops) :=
+  inv_final_of _ ops (inv_init d)
+
+/-- … and so for the state `run` ends in. -/
+theorem inv_run (d : Bool) (ops : List Op) : Inv (run (init d) ops).1 := by
+  rw [run_fst]; exact inv_final d ops
+
+/-! ## outputs -/
+
+/-- `Peek` answers `none` exactly on the empty queue. -/
+theorem peek_none_iff (s : St) : peek s = none ↔ s.arr = [] := by
+  unfold peek
+  split <;> simp_all
+
+/-- `Peek` on an ordered heap returns a best element of the array. -/
+theorem peek_spec (s : St) (hs : HeapOrd s) (hne : s.arr ≠ []) :
+    ∃ e, peek s = some e ∧ e ∈ s.arr ∧ ∀ x ∈ s.arr, lessK s.desc x.key e.key = false := by
+  have hl : s.arr.length ≠ 0 := by simpa using hne
+  refine ⟨s.at 0, by simp [peek, hl], at_mem s 0 (by omega), root_min_mem s hs⟩
+
+/-- `Pop` answers `none` exactly on the empty queue (and then leaves it alone). -/
+theorem pop_none_iff (s : St) : (pop s).2 = none ↔ s.arr = [] := by
+  unfold pop
+  split <;> simp_all
+
+theorem pop_empty (s : St) (h : s.arr = []) : pop s = (s, none) := by
+  simp [pop, h]
+
+@[simp] theorem pop_desc (s : St) : (pop s).1.desc = s.desc := by
+  unfold pop; split <;> simp
+
+/-- `Pop` on an ordered non-empty heap returns a best element `e` of the array, and exactly `e`
+leaves the array. -/
+theorem pop_spec (s : St) (hs : HeapOrd s) (hne : s.arr ≠ []) :
+    ∃ e, (pop s).2 = some e ∧ e ∈ s.arr ∧ (∀ x ∈ s.arr, lessK s.desc x.key e.key = false) ∧
+      s.arr.Perm (e :: (pop s).1.arr) := by
+  have hl : s.arr.length ≠ 0 := by simpa using hne
+  refine ⟨(heapPop s).2, by simp [pop, hl], ?_, ?_, ?_⟩
+  · rw [heapPop_elem s hl]; exact at_mem s 0 (by omega)
+  · rw [heapPop_elem s hl]; exact root_min_mem s hs
+  · simpa [pop, hl] using heapPop_perm s hl
+
+/-- `Pop` returns what `Peek` shows. -/
+theorem pop_eq_peek (s : St) : (pop s).2 = peek s := by
+  unfold pop peek
+  split
+  · next hl => simp [heapPop_elem s hl]
+  · rfl
+
+/-- Loop invariant of `PopAll`. -/
+theorem popAllAux_spec (fuel : Nat) (s : St) (acc : List Elem) (hs : HeapOrd s)
+    (hf : s.arr.length ≤ fuel) :
+    ∃ l, (popAllAux fuel s acc).2 = acc ++ l ∧ l.Perm s.arr ∧ (popAllAux fuel s acc).1.arr = [] ∧
+      l.Pairwise (fun a b => lessK s.desc b.key a.key = false) := by
+  induction fuel generalizing s acc with
+  | zero =>
+    exact ⟨[], by simp [popAllAux], by simp [List.length_eq_zero_iff.1 (Nat.le_zero.1 hf)],
+      List.length_eq_zero_iff.1 (Nat.le_zero.1 hf), List.Pairwise.nil⟩
+  | succ n ih =>
+    unfold popAllAux
+    split
+    · next hne =>
+      obtain ⟨l, h1, h2, h3, h4⟩ := ih (heapPop s).1 (acc ++ [(heapPop s).2])
+        (heapOrd_heapPop s hne hs) (by simp; omega)
+      have hperm := heapPop_perm s hne
+      refine ⟨(heapPop s).2 :: l, by simp [h1], ?_, h3, ?_⟩
+      · exact (List.Perm.cons _ h2).trans hperm.symm
+      · rw [heapPop_desc] at h4
+        refine List.Pairwise.cons ?_ h4
+        intro x hx
+        rw [heapPop_elem s hne]
+        apply root_min_mem s hs
+        exact hperm.symm.subset (List.mem_cons_of_mem _ (h2.subset hx))
+    · next he =>
+      have : s.arr = [] := by simpa using he
+      exact ⟨[], by simp, by simp [this], this, List.Pairwise.nil⟩
+
+/-- `PopAll` on an ordered heap empties the array and returns all its elements, best first. -/
+theorem popAll_spec (s : St) (hs : HeapOrd s) :
+    (popAll s).2.Perm s.arr ∧ (popAll s).1.arr = [] ∧
+      (popAll s).2.Pairwise (fun a b => lessK s.desc b.key a.key = false) := by
+  obtain ⟨l, h1, h2, h3, h4⟩ := popAllAux_spec s.arr.length s [] hs (Nat.le_refl _)
+  simp only [List.nil_append] at h1
+  unfold popAll
+  rw [h1]
+  exact ⟨h2, h3, h4⟩
+
+/-- An element above the root of an ordered heap is above every element. -/
+theorem lessK_of_root (d : Bool) (p r x : Int) (h1 : lessK d p r = true)
+    (h2 : lessK d x r = false) : lessK d p x = true := by
+  cases h : lessK d p x
+  · have := lessK_trans_false d p x r h h2
+    rw [h1] at this; cases this
+  · rfl
+
+/-- Loop invariant of `PopUntil`. -/
+theorem popUntilAux_spec (p : Int) (fuel : Nat) (s : St) (acc : List Elem) (hs : HeapOrd s)
+    (hf : s.arr.length ≤ fuel) :
+    ∃ l, (popUntilAux p fuel s acc).2 = acc ++ l ∧
+      (l ++ (popUntilAux p fuel s acc).1.arr).Perm s.arr ∧
+      l.Pairwise (fun a b => lessK s.desc b.key a.key = false) ∧
+      (∀ e ∈ l, leK s.desc e.key p = true) ∧
+      (∀ x ∈ (popUntilAux p fuel s acc).1.arr, leK s.desc x.key p = false) := by
+  induction fuel generalizing s acc with
+  | zero =>
+    have : s.arr = [] := List.length_eq_zero_iff.1 (Nat.le_zero.1 hf)
+    exact ⟨[], by simp [popUntilAux], by simp [popUntilAux], List.Pairwise.nil, by simp,
+      by simp [popUntilAux, this]⟩
+  | succ n ih =>
+    unfold popUntilAux
+    split
+    · next hc =>
+      obtain ⟨hne, hle⟩ := hc
+      obtain ⟨l, h1, h2, h3, h4, h5⟩ := ih (heapPop s).1 (acc ++ [(heapPop s).2])
+        (heapOrd_heapPop s hne hs) (by simp; omega)
+      have hperm := heapPop_perm s hne
+      rw [heapPop_desc] at h3 h4 h5
+      refine ⟨(heapPop s).2 :: l, by simp [h1], ?_, ?_, ?_, h5⟩
+      · exact (List.Perm.cons _ h2).trans hperm.symm
+      · refine List.Pairwise.cons ?_ h3
+        intro x hx
+        rw [heapPop_elem s hne]
+        apply root_min_mem s hs
+        exact hperm.symm.subset (List.mem_cons_of_mem _ (h2.subset (List.mem_append_left _ hx)))
+      · intro e he
+        rcases List.mem_cons.1 he with rfl | he
+        · rw [heapPop_elem s hne]; exact hle
+        · exact h4 e he
+    · next hc =>
+      refine ⟨[], by simp, by simp, List.Pairwise.nil, by simp, ?_⟩
+      intro x hx
+      have hne : s.arr.length ≠ 0 := by
+        intro h0; rw [List.length_eq_zero_iff.1 h0] at hx; cases hx
+      have hroot : leK s.desc (s.at 0).key p = false := by
+        cases h : leK s.desc (s.at 0).key p
+        · rfl
+        · exact absurd ⟨hne, h⟩ hc
+      rw [leK_false_iff] at hroot ⊢
+      exact lessK_of_root _ _ _ _ hroot (root_min_mem s hs x hx)
+
+/-- `PopUntil(p)` on an ordered heap returns, best first, exactly the elements with key `≤ p`
+(`CompareTo(p) <= 0`); every element left in the array has key `> p`. -/
+theorem popUntil_spec (s : St) (p : Int) (hs : HeapOrd s) :
+    ((popUntil s p).2 ++ (popUntil s p).1.arr).Perm s.arr ∧
+      (popUntil s p).2.Pairwise (fun a b => lessK s.desc b.key a.key = false) ∧
+      (∀ e ∈ (popUntil s p).2, leK s.desc e.key p = true) ∧
+      (∀ x ∈ (popUntil s p).1.arr, leK s.desc x.key p = false) := by
+  obtain ⟨l, h1, h2, h3, h4, h5⟩ := popUntilAux_spec p s.arr.length s [] hs (Nat.le_refl _)
+  simp only [List.nil_append] at h1
+  unfold popUntil
+  rw [h1]
+  exact ⟨h2, h3, h4, h5⟩
+
+/-! ## non-vacuity checks (tests on concrete instances, not general claims) -/
+
+/-- A concrete three-element state. -/
+def exampleState : St :=
+  { desc := false, arr := [⟨1, 3, 20⟩, ⟨0, 5, 10⟩, ⟨2, 4, 30⟩], idx := [1, 0, 2] }
+
+-- The invariant is satisfiable by a non-trivial state …
+example : Inv exampleState := by decide
+
+-- … which is what three pushes produce, …
+unseal up down in
+example : final (init false) [.push 10 5, .push 20 3, .push 30 4] = exampleState := by rfl
+
+-- … `Pop` then returns the element with the least key, and calling a handle twice, or the handle of
+-- a popped element, changes nothing.
+unseal up down in
+example : (run (init false) [.push 10 5, .push 20 3, .push 30 4, .remove 0, .remove 0, .pop,
+    .remove 1, .popAll]).2 =
+    [.handle 0, .handle 1, .handle 2, .ok, .ok, .elem (some ⟨1, 3, 20⟩), .ok,
+      .elems [⟨2, 4, 30⟩]] := by decide
+
+-- A state violating the heap order / the index invariant is rejected.
+example : ¬ Inv { desc := true, arr := [⟨1, 3, 20⟩, ⟨0, 5, 10⟩], idx := [1, 0] } := by decide
+example : ¬ Inv { desc := false, arr := [⟨1, 3, 20⟩, ⟨0, 5, 10⟩], idx := [0, 1] } := by decide
+
+end Hive.C12a.Heap
